@@ -33,6 +33,10 @@ typedef enum eSymbolFlags {
 
     eSymbolFlag_Label = 1 << 5,
 
+    /* element of a structure: like a label, it may be moved by padding */
+
+    eSymbolFlag_StructElem = 1 << 6,
+
     eSymbolFlags_Promotable = eSymbolFlag_FirstPassUnknown | eSymbolFlag_Questionable
                               | eSymbolFlag_UsesForwards
 } tSymbolFlags;
